@@ -152,3 +152,20 @@ Example C01_wf_3dpga :
   match mk_custom (sig_of_pqr 3 0 1) [[];[1];[2];[3];[0];[0;1];[0;2];[0;3];[1;2];[3;1];[2;3];[0;3;2];[0;1;3];[0;2;1];[1;2;3];[0;1;2;3]]%nat false
   with Ok A => wf_alg A | Err _ => false end = true.
 Proof. vm_compute. reflexivity. Qed.
+
+(* ---- the tie to today's source: _swap_blades and _compute_sign as regenerated from /repo/kingdon/algebra.py
+   (Gen/Kernels.v, statement by statement) ARE the model functions the theorems above speak about ---- *)
+From KV Require Import Gen.Kernels Bridge.Kernels.
+Theorem C01_swap_blades_kernel_is_todays_source : forall b1 b2 target,
+  gen_swap_blades b1 b2 target = swap_blades b1 b2 target.
+Proof. exact br_swap_blades. Qed.
+Print Assumptions C01_swap_blades_kernel_is_todays_source.
+
+Theorem C01_compute_sign_kernel_is_todays_source : forall A n1 n2 target,
+  sign_names A n1 n2 target =
+  match gen_swap_blades n1 n2 target with
+  | Some (swaps, _, eliminated) => of_opt EIndex (gen_sign_of (sig_at A) swaps eliminated)
+  | None => Err EValue
+  end.
+Proof. exact br_sign_names. Qed.
+Print Assumptions C01_compute_sign_kernel_is_todays_source.
